@@ -376,6 +376,10 @@ def close(a, b, tol=TOL):
         return a == b
     if isinstance(a, (tuple, list)) and isinstance(b, (tuple, list)):
         return len(a) == len(b) and all(close(x, y, tol) for x, y in zip(a, b))
+    if isinstance(a, np.bool_):
+        a = bool(a)
+    if isinstance(b, np.bool_):
+        b = bool(b)
     if a is None or b is None or isinstance(a, bool) or isinstance(b, bool):
         return a == b and type(a) == type(b) or (a is None and b is None)
     try:
@@ -772,6 +776,11 @@ def shards(tier, seed):
             out.append({'what': 'path', 'config': cfg, 'variant': 'deep'})
         for label, spec in SEG_LABELLED:
             out.append({'what': 'segment', 'config': cfg, 'spec': spec, 'label': label})
+    out.append({'what': 'derived', 'config': True})
+    out.append({'what': 'derived_paths', 'config': True})
+    if tier != 'quick':
+        out.append({'what': 'derived_paths', 'config': False})
+    out.append({'what': 'derived', 'config': False})
     out.append({'what': 'long', 'config': True})
     out.append({'what': 'long', 'config': False})
     out.append({'what': 'hash_eq'})
@@ -795,6 +804,10 @@ def run_shard(desc, tier, seed):
     try:
         if desc['what'] == 'hash_collision':
             run_hash_collisions(cfg, acc)
+        elif desc['what'] == 'derived':
+            run_derived_parallel(cfg, acc, tier)
+        elif desc['what'] == 'derived_paths':
+            run_derived_paths_parallel(cfg, acc, tier)
         elif desc['what'] == 'long':
             run_long_parallel(cfg, acc, tier)
         elif desc['what'] == 'path':
@@ -889,6 +902,27 @@ def _long_worker(args):
     return a
 
 
+def _derived_worker(args):
+    cfg, depth, name = args
+    a = core.Acc()
+    old = sp._quad_available
+    sp._quad_available = bool(cfg)
+    try:
+        run_derived(cfg, a, depth, only=None, names=[name])
+    finally:
+        sp._quad_available = old
+    return a
+
+
+def run_derived_parallel(cfg, acc, tier):
+    import multiprocessing as mp
+    depth = 2 if (tier != 'quick' or cfg) else 1
+    names = [n for n, _ in derived_shapes()]
+    with mp.get_context('fork').Pool(16) as pool_:
+        for a in pool_.map(_derived_worker, [(cfg, depth, n) for n in names], chunksize=1):
+            acc.merge(a)
+
+
 def run_long_parallel(cfg, acc, tier):
     import multiprocessing as mp
     sizes = LONG_SIZES_QUICK if tier == 'quick' else LONG_SIZES
@@ -933,8 +967,279 @@ def run_long_histories(cfg, acc, sizes=None):
                             break
 
 
+# ---------------------------------------------------------------- derived objects
+
+def fresh_from_public(s):
+    """a new segment built by the constructor from the PUBLIC defining attributes of s (for an Arc: start,
+    radius, rotation, large_arc, sweep, end) - what a user who reads those attributes would build"""
+    return j2seg(seg2j(s))
+
+
+def observe_any(s):
+    u_ = abs(complex(s.point(0.5)) - complex(s.start)) + abs(complex(s.end) - complex(s.point(0.5))) + 1e-300
+    z = complex(2.3, 11.1) * u_ + complex(s.start)
+    obs = [('type', outcome(lambda: type(s).__name__)),
+           ('start_end', outcome(lambda: (complex(s.start), complex(s.end)))),
+           ('points', outcome(lambda: tuple(complex(s.point(t)) for t in (0.0, 0.17, 0.5, 0.83, 1.0)))),
+           ('length', outcome(lambda: float(s.length()))),
+           ('length_sub', outcome(lambda: float(s.length(0.2, 0.7)))),
+           ('bbox', outcome(lambda: tuple(float(x) for x in s.bbox()))),
+           ('derivative', outcome(lambda: complex(s.derivative(0.3)))),
+           ('unit_tangent', outcome(lambda: complex(s.unit_tangent(0.3)))),
+           ('reversed_points', outcome(lambda: tuple(complex(s.reversed().point(t)) for t in (0.25, 0.75)))),
+           ('split_points', outcome(lambda: tuple(complex(x.point(0.5)) for x in s.split(0.4)))),
+           ('cropped_points', outcome(lambda: tuple(complex(s.cropped(0.2, 0.9).point(t)) for t in (0.0, 0.5, 1.0)))),
+           ('translated_points', outcome(lambda: tuple(complex(s.translated((1 - 2j) * u_).point(t)) for t in (0.0, 0.4, 1.0)))),
+           ('d', outcome(lambda: Path(s).d())),
+           ('ilength', outcome(lambda: float(s.ilength(0.4 * s.length()))))]
+    if not isinstance(s, Arc):
+        obs += [('poly', outcome(lambda: complex(s.poly()(0.3)))),
+                ('points_vector', outcome(lambda: tuple(complex(q) for q in s.points([0.3, 0.6])))),
+                ('radialrange', outcome(lambda: tuple((float(a), float(b)) for a, b in s.radialrange(z)))),
+                ('derivative2', outcome(lambda: complex(s.derivative(0.3, 2))))]
+    else:
+        obs += [('arc_parameters', outcome(lambda: (complex(s.center), float(s.theta) % 360.0, float(s.delta), complex(s.radius))))]
+    return obs
+
+
+DERIVE_OPS = [
+    ('reversed', lambda s: s.reversed()),
+    ('cropped_mid', lambda s: s.cropped(0.25, 0.75)),
+    ('cropped_head', lambda s: s.cropped(0.0, 0.45)),
+    ('cropped_tail', lambda s: s.cropped(0.55, 1.0)),
+    ('split_first', lambda s: s.split(0.4)[0]),
+    ('split_second', lambda s: s.split(0.4)[1]),
+    ('rotated40', lambda s: s.rotated(40, origin=s.point(0.5) + (s.end - s.start) * 0.3j)),
+    ('rotated_default_origin', lambda s: s.rotated(-75)),
+    ('quarter_turns_x5', lambda s: s.rotated(90, origin=0j).rotated(90, origin=0j).rotated(90, origin=0j).rotated(90, origin=0j).rotated(90, origin=0j)),
+    ('translated', lambda s: s.translated((s.end - s.start) * (0.7 - 0.4j) + abs(s.point(0.5) - s.start) * 0.1)),
+    ('translated_far', lambda s: s.translated((1.0e6 - 2.0e6j) * (abs(s.point(0.5) - s.start) + abs(s.end - s.point(0.5))))),
+    ('scaled1.5', lambda s: s.scaled(1.5)),
+    ('mirrored', lambda s: s.scaled(-1.0)),
+    ('via_d_string', lambda s: parse_path(Path(s).d())[0]),
+    ('in_path_rotated', lambda s: (lambda u: Path(Line(s.start - (2 + 1j) * u, s.start), s, Line(s.end, s.end + (1 - 3j) * u)).rotated(33, origin=0j)[1])(abs(s.point(0.5) - s.start) + 1e-300)),
+    ('in_path_reversed', lambda s: (lambda u: Path(Line(s.start - (2 + 1j) * u, s.start), s).reversed()[0])(abs(s.point(0.5) - s.start) + 1e-300)),
+    ('cropped_descending_arc', lambda s: s.cropped(0.8, 0.3) if isinstance(s, Arc) else s.cropped(0.3, 0.8)),
+]
+
+
+def warm(s):
+    for q in (lambda: s.length(), lambda: s.length(0.1, 0.6), lambda: s.bbox(), lambda: s.point(0.3), lambda: s.derivative(0.3),
+              lambda: s.poly(), lambda: s.unit_tangent(0.2), lambda: hash(s), lambda: s.ilength(0.3 * s.length())):
+        outcome(q)
+    return s
+
+
+def derived_shapes(scale=1.0):
+    from mc import alphabets as AB
+    names = ['L_diagonal', 'L_nondyadic', 'Q_generic', 'Q_nondyadic', 'Q_control_eq_start', 'Q_control_eq_end', 'C_arch', 'C_sshape', 'C_nondyadic',
+             'C_c2_eq_end', 'C_c1_eq_start', 'C_loop', 'A_circle_small_ccw', 'A_circle_large_cw', 'A_ellipse_3to1', 'A_ellipse_rot30', 'A_rot400',
+             'A_cw_large_rot30', 'A_negative_radius', 'A_exact_fit_semicircle', 'A_too_small']
+    return [(n, AB.make(n, scale)) for n in names]
+
+
+def run_derived(cfg, acc, depth, only=None, names=None):
+    """objects produced BY the library (one operation, or two in a row; the source measured first or not)
+    against a segment built by the constructor from their public attributes: every observation must agree.
+    A derived object that carries a stale flag, cache or hidden parameter traces the right curve until
+    something re-derives it - which is exactly what the observations (reversed, split, cropped, translated,
+    d) do."""
+    for name, base in derived_shapes(1.0 if cfg else S):
+        if names is not None and name not in names:
+            continue
+        kind = type(base).__name__[0]
+        for w in (False, True):
+            seqs = [(i,) for i in range(len(DERIVE_OPS))]
+            if depth >= 2:
+                seqs += [(i, j) for i in range(len(DERIVE_OPS)) for j in range(len(DERIVE_OPS)) if i != j]
+            for seq in seqs:
+                case = {'level': 'derived', 'config': cfg, 'shape': name, 'warm': w, 'ops': [DERIVE_OPS[i][0] for i in seq]}
+                if only is not None and (only['shape'], only['warm'], only['ops']) != (name, w, case['ops']):
+                    continue
+                src = rebuild_by_value(base)
+                if w:
+                    warm(src)
+                r = ('ok', src)
+                for i in seq:
+                    r = outcome(lambda: DERIVE_OPS[i][1](r[1]))
+                    if r[0] != 'ok':
+                        break
+                    if w:
+                        warm(r[1])
+                acc.case(case, cls='derived/%s/%s/%d' % (cfg_name(cfg), kind, len(seq)))
+                acc.traces += 1
+                sig = {'kind': kind, 'last_op': case['ops'][-1], 'first_op': case['ops'][0] if len(seq) > 1 else None, 'warm': w, 'config': cfg_name(cfg)}
+                if r[0] != 'ok':
+                    # an operation may legitimately refuse (e.g. cropping a piece that became degenerate): only a crash
+                    # on an object the previous operation returned is reported, and only for the second step
+                    if len(seq) > 1 and r[1] not in ('AssertionError', 'ValueError'):
+                        acc.violation('operation_on_derived_object_raises', dict(sig, exc=r[1]), case, observed=r)
+                    else:
+                        acc.filt('derive_op_refused')
+                    continue
+                obj = r[1]
+                fr = outcome(lambda: fresh_from_public(obj))
+                if fr[0] != 'ok':
+                    acc.violation('public_attributes_do_not_build_a_segment', dict(sig, exc=fr[1]), case, observed=fr)
+                    continue
+                size = abs(complex(obj.start)) + abs(complex(obj.end)) + 1.0
+                tol = (1e-7 if kind == 'A' else 1e-9) * size
+                oa, ob = observe_any(obj), observe_any(fr[1])
+                for (qn, a), (_, b) in zip(oa, ob):
+                    t_ = 1e-6 if qn in ('ilength',) else (tol if qn != 'arc_parameters' else 1e-5 * size)
+                    if qn == 'd':
+                        ok = a[0] == b[0] and (a[0] != 'ok' or parse_path(a[1]) == parse_path(b[1]))
+                    else:
+                        ok = same_outcome(a, b, t_)
+                    if not ok and qn in ('length', 'length_sub', 'ilength') and a[0] == b[0] == 'ok':
+                        ok = abs(a[1] - b[1]) <= 1e-9 * max(abs(b[1]), 1e-300) + (1e-6 if qn == 'ilength' else 0.0)
+                    if not ok and a[0] == 'exc' and b[0] == 'exc':
+                        ok = True       # both refuse (possibly with different messages)
+                    if not ok:
+                        acc.violation('derived_object_differs_from_fresh', dict(sig, query=qn), case, observed=a, expected=b,
+                                      detail='%s of the object returned by %s' % (qn, ' then '.join(case['ops'])))
+                        break
+
+
+# ---------------------------------------------------------------- derived paths
+
+def path_sources():
+    PL = pool('thorough')
+    mk = lambda idx: [j2seg(PL[i]) for i in idx]
+    closing = lambda segs: Line(segs[-1].end, segs[0].start)
+    out = {}
+    out['open_LCQ'] = lambda: Path(*mk([0, 1, 2]))
+    out['open_LCQA'] = lambda: Path(*mk([0, 1, 2, 3]))
+    out['closed_LCQ_line'] = lambda: (lambda sg: Path(*(sg + [closing(sg)])))(mk([0, 1, 2]))
+    out['parsed_closed_Z'] = lambda: parse_path(Path(*(lambda sg: sg + [closing(sg)])(mk([0, 1, 2]))).d(use_closed_attrib=True))
+    out['parsed_open'] = lambda: parse_path(Path(*mk([0, 1])).d())
+    out['two_subpaths'] = lambda: Path(*(mk([0, 1]) + [Line(complex(20 * S, 3 * S), complex(24 * S, 6 * S))]))
+    out['closed_then_open_parsed'] = lambda: parse_path(Path(*(lambda sg: sg + [closing(sg)])(mk([0, 1]))).d(use_closed_attrib=True) +
+                                                        ' M %r,%r L %r,%r' % (20 * S, 3 * S, 24 * S, 6 * S))
+    return out
+
+
+def _lead_in(p):
+    p.insert(0, Line(p.start - complex(2 * S, S), p.start))
+    return p
+
+
+def _mut(f):
+    def g(p):
+        f(p)
+        return p
+    return g
+
+
+PATH_DERIVE_OPS = [
+    ('reversed', lambda p: p.reversed()),
+    ('cropped_inner', lambda p: p.cropped(0.2, 0.7)),
+    ('cropped_from_0', lambda p: p.cropped(0, 0.5)),
+    ('cropped_to_1', lambda p: p.cropped(0.4, 1)),
+    ('translated', lambda p: p.translated(complex(3 * S, -2 * S))),
+    ('rotated', lambda p: p.rotated(33, origin=0j)),
+    ('scaled', lambda p: p.scaled(1.5)),
+    ('mirrored', lambda p: p.scaled(-1.0, 1.0) if not any(isinstance(x, Arc) for x in p) else p.scaled(-1.0)),
+    ('via_d', lambda p: parse_path(p.d())),
+    ('via_d_Z', lambda p: parse_path(p.d(use_closed_attrib=True))),
+    ('first_subpath', lambda p: p.continuous_subpaths()[0]),
+    ('same_segments', lambda p: Path(*p)),
+    ('copy', lambda p: copy.copy(p)),
+    ('insert_lead_in', _lead_in),
+    ('pop', _mut(lambda p: p.pop())),
+    ('end=start', _mut(lambda p: setattr(p, 'end', p.start))),
+    ('start=moved', _mut(lambda p: setattr(p, 'start', p.start + complex(S, 2 * S)))),
+    ('arcs_to_cubics', _mut(lambda p: p.approximate_arcs_with_cubics())),
+]
+
+PATH_OBS = QUERY_FNS + [
+    ('closed_property', lambda p: p.isclosed() if p.iscontinuous() else None),
+    ('area', lambda p: p.area() if (p.iscontinuous() and p.isclosed()) else None),
+    ('point_list', lambda p: [p.point(T) for T in (0.0, 0.1, 0.45, 0.8, 1.0)]),
+    ('T2t_list', lambda p: [p.T2t(T) for T in (0.1, 0.45, 0.8)]),
+    ('reversed.d', lambda p: p.reversed().d()),
+    ('cropped.d', lambda p: p.cropped(0.15, 0.85).d()),
+    ('ilength', lambda p: p.ilength(0.4 * p.length()) if sp._quad_available else None),
+]
+
+
+def warm_path(p):
+    for f in (lambda: p.length(), lambda: p.point(0.3), lambda: p.T2t(0.6), lambda: p.bbox(), lambda: p.start, lambda: p.end,
+              lambda: p.isclosed() if p.iscontinuous() else None, lambda: [s_.length() for s_ in p], lambda: p.d()):
+        outcome(f)
+    return p
+
+
+def run_derived_paths(cfg, acc, only=None, names=None):
+    """paths produced by the library from other paths (and edited through the Path interface), one or two
+    steps, the source measured first or not: every observation against a Path constructed from by-value
+    copies of the result's segments"""
+    for name, mkp in path_sources().items():
+        if names is not None and name not in names:
+            continue
+        for w in (False, True):
+            seqs = [(i,) for i in range(len(PATH_DERIVE_OPS))] + \
+                   [(i, j) for i in range(len(PATH_DERIVE_OPS)) for j in range(len(PATH_DERIVE_OPS))]
+            for seq in seqs:
+                case = {'level': 'derived_path', 'config': cfg, 'source': name, 'warm': w, 'ops': [PATH_DERIVE_OPS[i][0] for i in seq]}
+                if only is not None and (only['source'], only['warm'], only['ops']) != (name, w, case['ops']):
+                    continue
+                src = mkp()
+                if w:
+                    warm_path(src)
+                r = ('ok', src)
+                for i in seq:
+                    r = outcome(lambda: PATH_DERIVE_OPS[i][1](r[1]))
+                    if r[0] != 'ok' or not isinstance(r[1], Path) or len(r[1]) == 0:
+                        break
+                    if w:
+                        warm_path(r[1])
+                if r[0] != 'ok' or not isinstance(r[1], Path) or len(r[1]) == 0:
+                    acc.filt('derive_op_refused_or_empty')
+                    continue
+                obj = r[1]
+                acc.case(case, cls='derived_path/%s/%d' % (cfg_name(cfg), len(seq)))
+                acc.traces += 1
+                sig = {'last_op': case['ops'][-1], 'first_op': case['ops'][0] if len(seq) > 1 else None, 'warm': w, 'config': cfg_name(cfg),
+                       'parsed_source': name.startswith('parsed') or 'parsed' in name}
+                fresh = Path(*[rebuild_by_value(s_) for s_ in obj])
+                for qn, f in PATH_OBS:
+                    a, b = outcome(lambda: f(obj)), outcome(lambda: f(fresh))
+                    ok = same_outcome(a, b, tol_for(qn)) or (a[0] == 'exc' and b[0] == 'exc')
+                    if not ok and a[0] == b[0] == 'ok' and isinstance(a[1], str) and isinstance(b[1], str):
+                        # d-strings: the same path up to the last digit (numpy vs Python arithmetic round differently)
+                        pa, pb = outcome(lambda: path2j(parse_path(a[1]))), outcome(lambda: path2j(parse_path(b[1])))
+                        ok = pa[0] == pb[0] == 'ok' and close(pa[1], pb[1], TOL)
+                    if not ok and qn in ('length', 'length(0.2,0.7)', 'area', 'ilength') and a[0] == b[0] == 'ok' and a[1] is not None and b[1] is not None:
+                        ok = abs(a[1] - b[1]) <= 1e-9 * max(abs(b[1]), TOL)
+                    if not ok:
+                        acc.violation('derived_path_differs_from_fresh', dict(sig, query=qn.split('(')[0]), case, observed=a, expected=b,
+                                      detail='%s of the path returned by %s' % (qn, ' then '.join(case['ops'])))
+                        break
+
+
+def _derived_path_worker(args):
+    cfg, name = args
+    a = core.Acc()
+    old = sp._quad_available
+    sp._quad_available = bool(cfg)
+    try:
+        run_derived_paths(cfg, a, names=[name])
+    finally:
+        sp._quad_available = old
+    return a
+
+
+def run_derived_paths_parallel(cfg, acc, tier):
+    import multiprocessing as mp
+    names = list(path_sources())
+    with mp.get_context('fork').Pool(len(names)) as pool_:
+        for a in pool_.map(_derived_path_worker, [(cfg, n) for n in names], chunksize=1):
+            acc.merge(a)
+
+
 def expected_classes(tier):
-    out = ['hash_eq/Path/equal', 'hash_eq/segment/equal', 'long/scipy/ge32', 'long/fallback/lt32'] + \
+    out = ['hash_eq/Path/equal', 'hash_eq/segment/equal', 'long/scipy/ge32', 'long/fallback/lt32', 'derived/scipy/A/2', 'derived/scipy/C/2', 'derived/fallback/Q/1', 'derived_path/scipy/2'] + \
         ['path_%s/%s' % (v, c) for v in VARIANTS[1:] for c in ('scipy', 'fallback')]
     for c in ('scipy', 'fallback'):
         for n in range(0, lmax(tier) + 1):
@@ -972,6 +1277,18 @@ def replay(case):
     if case['level'] == 'hash_collision':
         try:
             run_hash_collisions(cfg, acc, only=case)
+        finally:
+            sp._quad_available = old
+        return acc.vlist
+    if case['level'] == 'derived_path':
+        try:
+            run_derived_paths(cfg, acc, only=case)
+        finally:
+            sp._quad_available = old
+        return acc.vlist
+    if case['level'] == 'derived':
+        try:
+            run_derived(cfg, acc, len(case['ops']), only=case)
         finally:
             sp._quad_available = old
         return acc.vlist
